@@ -478,6 +478,12 @@ func c16RunLane(t *testing.T, dir string, lane string, scenarios []c16Scenario) 
 			if next == 0 {
 				return nil, fmt.Errorf("lane %s: child made no progress (%v):\n%s", lane, runErr, c16Short(stderr.String(), 3000))
 			}
+			// a panic AFTER the last scenario had ended (a goroutine the real code left behind): it belongs to that
+			// scenario, whose trace then goes on with a Crash line behind its end (late: true)
+			if text, frame, decoder := c16PanicText(stderr.String()); text != "" && decoder == "" && !strings.Contains(text, "c16 harness:") {
+				last := remaining[next-1]
+				all = append(all, c16Line{"sc": last.Sc, "ev": "Crash", "ep": last.Ep, "text": c16Short(text, 200), "frame": frame, "fatal": true, "late": true, "calls": []int{}})
+			}
 			remaining = remaining[next:]
 			continue
 		}
